@@ -4,6 +4,7 @@
    state's [obs] log, into which command results are interleaved in time order. *)
 From Coq Require Import List NArith Arith Bool FMapPositive.
 From Quill Require Import Queue.BQDefs BT.BTModel Backend.BEDefs.
+From Quill Require Backend.BEExit.
 From Quill Require Queue.UQDefs.
 Import ListNotations.
 Local Open Scope N_scope.
@@ -24,6 +25,7 @@ Inductive cmd :=
 | CShrink (t : nat) (c : N)     (* shrink_thread_local_queue(c) + get_thread_local_queue_capacity() *)
 | CTick (d : N)
 | CCtx
+| CStop (d : N) (n : nat)    (* Backend::stop() as the backend thread runs it: BackendWorker::_exit, the clock moving d per loop iteration, at most n iterations *)
 | CPoll (inj : list (N * N * list cmd)).   (* (yield point, visit, commands) *)
 
 Section X.
@@ -111,6 +113,11 @@ Definition exec_simple (sx : st * list op) (c : cmd) : st * list op :=
       note sx1 [9; match uqs (th (fst sx1) t) with Some u => Queue.UQDefs.producer_capacity u | None => c_cap K end]
   | CTick d => app_ops sx [F (FTick d)]
   | CCtx => note sx [O_CTX; N.of_nat (length (registered (fst sx)))]
+  | CStop d n =>
+      (* not a sequence of micro-ops of the _poll state machine: the drain loop of BEExit (exit_drain, theorem
+         exit_drain_spec), then the two clean-ups that follow the loop; result 3 = the loop did not finish in n rounds *)
+      let (s1, ok) := Backend.BEExit.exit_drain K (repeat d n) (fst sx) in
+      if ok then note (cleanup_ctx K s1, snd sx) [O_RES; 1] else note (s1, snd sx) [O_RES; 3]
   | CPoll _ => sx
   end.
 
@@ -252,6 +259,7 @@ Fixpoint dec_cmds (fuel : nat) (l : list N) : list cmd :=
     | 12 :: t :: id :: lgi :: sz :: r => CFlush (N.to_nat t) (mk_ctl KFlushBt id lgi sz) :: dec_cmds f r
     | 13 :: k :: m :: r => CAddFilter (N.to_nat k) m :: dec_cmds f r
     | 14 :: t :: c :: r => CShrink (N.to_nat t) c :: dec_cmds f r
+    | 15 :: d :: n :: r => CStop d (N.to_nat n) :: dec_cmds f r
     | 10 :: r => CCtx :: dec_cmds f r
     | _ => []
     end
